@@ -1,4 +1,5 @@
 import Zc.Model.SurviveApi
+import Zc.Model.SurviveRouteQ
 /-! # C15 — the closed composite: every block of a running instance, and the loop's clock
 
 `HBlock` lists every kind of atomic block the event loop runs on a started instance that has not been closed (C17 owns the
@@ -63,11 +64,14 @@ def lift (s : State (CS υ)) (r : Except PyExc (CS υ × List (List Bytes))) : E
   | .error e => .error e
   | .ok (d, pks) => .ok ({ s with down := d }, pks.map (fun pk => Out.down (COut.sent pk)))
 
-/-- one block of the closed composite; `.error` is an exception reaching the event loop (or, for `tcFire` of an address without an
-armed timer, the marker `KeyError` of a block the loop cannot run) -/
-def hstep (s : State (CS υ)) : HBlock υ → Except PyExc (State (CS υ) × List (Out (COut ω)))
-  | .recv data addr port now draw => (recv (down lower possible ettl attrib orc U upd) s data addr port now draw).map (fun r => (r.1, r.2.1))
-  | .tcFire addr => (tcFire (down lower possible ettl attrib orc U upd) s addr).map (fun r => (r.1, r.2.1))
+/-- the same with `_QueryResponse` routing **per strategy of each question** (`Model/SurviveRouteQ`): everything but `answer` is `down` -/
+def downQ : Down (CS υ) (COut ω) := RouteQ.downQ lower ettl possible orc (userBase U upd)
+
+/-- one block of the closed composite over the listener's downstream `D` (`down` or `downQ`); `.error` is an exception reaching the
+event loop (or, for `tcFire` of an address without an armed timer, the marker `KeyError` of a block the loop cannot run) -/
+def hstepD (D : Down (CS υ) (COut ω)) (s : State (CS υ)) : HBlock υ → Except PyExc (State (CS υ) × List (Out (COut ω)))
+  | .recv data addr port now draw => (recv D s data addr port now draw).map (fun r => (r.1, r.2.1))
+  | .tcFire addr => (tcFire D s addr).map (fun r => (r.1, r.2.1))
   | .browserFire i done now => lift s (browserFire lower sz s.down i done now)
   | .lookupQuery j now qu => lift s (lookupQuery lower s.down j now qu)
   | .flush delay now => lift s (flushStep lower s.down delay now)
@@ -76,15 +80,19 @@ def hstep (s : State (CS υ)) : HBlock υ → Except PyExc (State (CS υ) × Lis
     | .error e => .error e
     | .ok (d, o) => .ok ({ s with down := d }, o.map Out.down)
 
-def hrun : State (CS υ) → List (HBlock υ) → Except PyExc (State (CS υ) × List (Out (COut ω)))
+def hrunD (D : Down (CS υ) (COut ω)) : State (CS υ) → List (HBlock υ) → Except PyExc (State (CS υ) × List (Out (COut ω)))
   | s, [] => .ok (s, [])
   | s, b :: rest =>
-    match hstep lower possible ettl attrib orc sz U upd s b with
+    match hstepD lower possible sz U upd D s b with
     | .error e => .error e
     | .ok (s1, o1) =>
-      match hrun s1 rest with
+      match hrunD D s1 rest with
       | .error e => .error e
       | .ok (s2, o2) => .ok (s2, o1 ++ o2)
+
+/-- over the downstream with the merged routing (`attrib` a parameter) -/
+abbrev hstep (s : State (CS υ)) (b : HBlock υ) := hstepD lower possible sz U upd (down lower possible ettl attrib orc U upd) s b
+abbrev hrun (s : State (CS υ)) (bs : List (HBlock υ)) := hrunD lower possible sz U upd (down lower possible ettl attrib orc U upd) s bs
 
 end
 
